@@ -465,18 +465,35 @@ Fixpoint deliver (ns : list wnode) (f : frame) (members : list (nat * nat)) (q :
       end
   end.
 
-Definition step (w : world) : option world :=
-  match queue w with
+(* one frame leaves the queue: state without the trace *)
+Definition step_core (lns : list (N * list (nat * nat))) (ns : list wnode) (qu : list frame)
+  : option (list wnode * list frame * list obs) :=
+  match qu with
   | [] => None
-  | f :: q =>
-      let '(ns, q', tr) := deliver (nodes w) f (lan_members (lans w) (f_lan f)) q (OFrame f :: trace w) in
-      Some (mkWorld ns (lans w) q' tr)
+  | f :: q => Some (deliver ns f (lan_members lns (f_lan f)) q [OFrame f])
+  end.
+
+Definition step (w : world) : option world :=
+  match step_core (lans w) (nodes w) (queue w) with
+  | None => None
+  | Some (ns, q', os) => Some (mkWorld ns (lans w) q' (os ++ trace w))
   end.
 
 Fixpoint run (fuel : nat) (w : world) : world :=
   match fuel with
   | O => w
   | S k => match step w with None => w | Some w' => run k w' end
+  end.
+
+(* the same run on (nodes, queue) only *)
+Fixpoint erun (lns : list (N * list (nat * nat))) (fuel : nat) (c : list wnode * list frame)
+  : list wnode * list frame :=
+  match fuel with
+  | O => c
+  | S k => match step_core lns (fst c) (snd c) with
+           | None => c
+           | Some (ns, q', _) => erun lns k (ns, q')
+           end
   end.
 
 (* the application of node `who` submits a PDU *)
